@@ -209,7 +209,13 @@ func propOverride(t *rapid.T) {
 		target += "?" + url.Values{handlers.HTTPMethodOverrideFormKey: {formVal}}.Encode()
 		body = strings.NewReader("")
 	} else if formVal != "" || carrier == "form" || carrier == "both" {
-		body = strings.NewReader(url.Values{handlers.HTTPMethodOverrideFormKey: {formVal}}.Encode())
+		vals := url.Values{handlers.HTTPMethodOverrideFormKey: {formVal}}
+		if rapid.IntRange(0, 3).Draw(t, "bigForm") == 0 {
+			// an ordinary edit form: the other fields make the body longer than 1 KB / 4 KB
+			vals.Set("description", strings.Repeat("lorem ipsum ", rapid.IntRange(100, 400).Draw(t, "padding")))
+			ev.Class("override:form-body-longer-than-1KB")
+		}
+		body = strings.NewReader(vals.Encode())
 	} else {
 		body = strings.NewReader("")
 	}
@@ -309,6 +315,21 @@ func propWrap(t *rapid.T) {
 		}
 		wantInner = append(wantInner, "std "+name)
 	}
+	// native middleware around the generic handlers: a status recorded before them is the one sent when they start the
+	// body, and what they wrote is visible to the context afterwards (they write through the context's writer)
+	preStatus := 0
+	if rapid.IntRange(0, 2).Draw(t, "statusBefore") == 0 {
+		preStatus = rapid.SampledFrom([]int{201, 202, 404}).Draw(t, "preStatus")
+	}
+	seenLen, seenStatus := -2, -2
+	observer := func(c *rux.Context) {
+		if preStatus != 0 {
+			c.SetStatus(preStatus)
+		}
+		c.Next()
+		seenLen, seenStatus = c.Length(), c.StatusCode()
+	}
+	mws = append([]rux.HandlerFunc{observer}, mws...)
 	r.GET("/w", func(c *rux.Context) { trace = append(trace, "main"); c.WriteString("[main]") }, mws...)
 	h := r.WrapHTTPHandlers(wrappers...)
 	// the caller keeps its wrapper list and wraps again (a second server, a test): the list must still mean the same
@@ -346,8 +367,14 @@ func propWrap(t *rapid.T) {
 	if strings.Join(trace, ",") != strings.Join(want, ",") {
 		t.Fatalf("want trace %v: %s", want, ctx)
 	}
+	if short < 0 && preStatus != 0 {
+		wantCode = preStatus
+	}
 	if rec.Code != wantCode || rec.Body.String() != wantBody {
 		t.Fatalf("want %d %q: %s", wantCode, wantBody, ctx)
+	}
+	if short < 0 && (seenLen != len(wantBody) || seenStatus != wantCode) {
+		t.Fatalf("the middleware around the chain saw Length()=%d StatusCode()=%d after Next(), the response is %d with %d bytes: %s", seenLen, seenStatus, wantCode, len(wantBody), ctx)
 	}
 	if n >= 2 || k >= 1 {
 		ev.NonTrivial(ctx, func() string { return ctx })
